@@ -77,12 +77,13 @@ int main(int argc, char** argv) {
 		std::string const K = std::string("C14:gesvd:") + MK[kind] + ":"; describe(std::string("gesvd ") + MK[kind] + " U=" + MK[ku] + " VT=" + MK[kv] + " m,n=" + std::to_string(m) + "," + std::to_string(n)); sig_mix(K.c_str()); sig_mix(std::uint64_t(ku * 2 + kv)); sig_mix(std::uint64_t(std::min<L>(m, 3) * 4 + std::min<L>(n, 3))); nontrivial(m >= 2 && n >= 2);
 		if(c.k % 3 == 2) {  // the value-returning form for a read-only owning array: auto [U, s, VT] = gesvd(A)
 			op("gesvd(const array)->tuple"); std::string const K2 = "C14:gesvd:tuple-form:"; multi::array<double, 2> AO0(multi::extensions_t<2>{m, n}); for(L i = 0; i < m; ++i) for(L j = 0; j < n; ++j) AO0[i][j] = A0[std::size_t(i * n + j)]; multi::array<double, 2> const AO = AO0;
-			try { auto ret = ml::gesvd(AO); auto const& UU = std::get<0>(ret); auto const& ss = std::get<1>(ret); auto const& VV = std::get<2>(ret); count("tuple-form");
+			bool const mutable_lvalue = c.rng.chance(1, 2); multi::array<double, 2> AM = AO0; if(mutable_lvalue) count("tuple-form(non-const lvalue input)");  // the value-returning form works on a copy whatever the constness / value category of a named input
+			try { auto ret = mutable_lvalue ? ml::gesvd(AM) : ml::gesvd(AO); auto const& UU = std::get<0>(ret); auto const& ss = std::get<1>(ret); auto const& VV = std::get<2>(ret); count("tuple-form");
 				if(UU.size() != m || UU.rotated().size() != m || ss.size() != kk || VV.size() != n || VV.rotated().size() != n) violation(K2 + "shapes", "gesvd(A) of a " + std::to_string(m) + "x" + std::to_string(n) + " matrix returns U " + std::to_string(UU.size()) + "x" + std::to_string(UU.rotated().size()) + ", " + std::to_string(ss.size()) + " values, VT " + std::to_string(VV.size()) + "x" + std::to_string(VV.rotated().size()));
 				else { double err = 0, scale = 1; for(auto e : A0) scale = std::max(scale, std::abs(e)); for(L i = 0; i < m; ++i) for(L j = 0; j < n; ++j) { double x = 0; for(L k2 = 0; k2 < kk; ++k2) x += UU[i][k2] * ss[k2] * VV[k2][j]; err = std::max(err, std::abs(x - A0[std::size_t(i * n + j)])); }
 					if(err > 200 * double(m + n) * 2.3e-16 * scale) violation(K2 + "reconstruction", "U*diag(s)*VT of the returned tuple differs from the input by " + std::to_string(err));
 					for(L k2 = 0; k2 < kk; ++k2) if(ss[k2] < 0 || (k2 + 1 < kk && ss[k2] < ss[k2 + 1])) violation(K2 + "singular-values-order", "singular values are not non-negative and descending"); }
-				if(!(AO == AO0)) violation(K2 + "input-modified", "the read-only input was modified");
+				if(!(AO == AO0)) violation(K2 + "input-modified", "the read-only input was modified"); if(!(AM == AO0)) violation(K2 + "input-modified(non-const lvalue)", "gesvd(A) returned its factors by value and overwrote the named matrix it was given");
 			} catch(assertion_failure const& e) { violation(K2 + "rejected", "gesvd(A) rejected (assertion) an owning row-major array"); } catch(std::exception const& e) { violation(K2 + "rejected", std::string("gesvd(A) rejected an owning row-major array: ") + e.what()); } }
 		op((std::string("gesvd:") + MK[kind]).c_str());
 		try { ml::gesvd(A, U, s, VT);
